@@ -1861,6 +1861,24 @@ func (bc *Blockchain) AddBlock(block *block.Block) error {
 		if expectedH != block.Hash() {
 			return fmt.Errorf("invalid block: hash mismatch: expected %s, got %s", expectedH.StringLE(), block.Hash().StringLE())
 		}
+		// The hash doesn't cover the witness, so the one this block came with
+		// needs to be checked unless it's exactly the one of the known header.
+		if !bc.config.SkipBlockVerification {
+			hdr, err := bc.GetHeader(expectedH)
+			if err != nil {
+				return fmt.Errorf("invalid block: can't get known header %d: %w", block.Index, err)
+			}
+			if !bytes.Equal(hdr.Script.InvocationScript, block.Script.InvocationScript) ||
+				!bytes.Equal(hdr.Script.VerificationScript, block.Script.VerificationScript) {
+				prevHdr, err := bc.GetHeader(block.PrevHash)
+				if err != nil {
+					return fmt.Errorf("invalid block: can't get previous header: %w", err)
+				}
+				if err = bc.verifyHeaderWitnesses(&block.Header, prevHdr); err != nil {
+					return fmt.Errorf("invalid block: %w", err)
+				}
+			}
+		}
 	}
 	if !bc.config.SkipBlockVerification {
 		merkle := block.ComputeMerkleRoot()
